@@ -293,6 +293,13 @@ def _note_parts(tier):
         byid["a"].tie_next, byid["b"].tie_prev = byid["b"], byid["a"]
         return p
     out.append(("tied_pair_whose_first_note_crosses_a_barline", tied_pair_first_crosses_barline))
+    # a part that was edited before it was barred: a note taken out again (its time points go with it), then measures added
+    def edited_by_removal():
+        p = G.build_part("P", 4, notes=[("n0", 0, 4, "E", None, 4, 1, 1), ("nx", 8, 6, "F", None, 4, 1, 1), ("n2", 16, 8, "G", None, 4, 1, 1), ("lo1", 4, 20, "C", None, 3, 2, 1), ("lo2", 24, 8, "D", None, 3, 2, 1)], measures=None)
+        p.remove([n for n in p.iter_all(sc.Note) if n.id == "nx"][0])
+        sc.add_measures(p)
+        return p
+    out.append(("a_note_removed_before_the_measures_were_added", edited_by_removal))
     # a voice entering after a silence whose length is not one notated value (5 sixteenths; 17 thirty-seconds)
     out.append(("voice_enters_after_a_composite_silence", lambda: G.build_part("P", 8, notes=[("a", 10, 22, "C", None, 4, 1, 1), ("b", 32, 32, "D", None, 4, 1, 1), ("c", 81, 15, "E", None, 4, 1, 1), ("lo", 0, 96, "C", None, 3, 2, 1)],
                                                                               measures=[(0, 32), (32, 64), (64, 96)])))
